@@ -650,14 +650,74 @@ fn show_matrix_state(m: &Matrix<u64>) -> String {
     format!("{}x{} len={} use={}", rows, cols, len, used)
 }
 
+// ---------------------------------------------------------------------------------------------
+// an element type whose `Clone` panics on a chosen call (user code running inside the library)
+// ---------------------------------------------------------------------------------------------
+
+thread_local! {
+    /// calls of `Pc::clone` left before one panics (`None`: never) — harness state, not the library's
+    static CLONES_LEFT: Cell<Option<usize>> = const { Cell::new(None) };
+}
+
+#[derive(Debug, PartialEq)]
+pub struct Pc(u64);
+
+impl Clone for Pc {
+    fn clone(&self) -> Pc {
+        CLONES_LEFT.with(|b| match b.get() {
+            Some(0) => {
+                b.set(None);
+                panic!("Clone panics");
+            }
+            Some(n) => b.set(Some(n - 1)),
+            None => {}
+        });
+        Pc(self.0)
+    }
+}
+
+/// size, stored element count, and a bounded walk by reference (no clones) in both orders
+fn show_pc_state(m: &Matrix<Pc>) -> String {
+    let (rows, cols) = m.size();
+    #[cfg(feature = "hooks")]
+    let len = m.verif_storage_len();
+    #[cfg(not(feature = "hooks"))]
+    let len = rows * cols;
+    let limit = len.saturating_add(2).min(1 << 20);
+    let used = match catch(|| {
+        (m.row_major_reference_iter().take(limit).count(), m.column_major_reference_iter().take(limit).count())
+    }) {
+        Ok((a, b)) if a == b => a.to_string(),
+        Ok((a, b)) => format!("{}/{}", a, b),
+        Err(k) => panic_str(k),
+    };
+    format!("{}x{} len={} use={}", rows, cols, len, used)
+}
+
+fn pc_op(m: &mut Matrix<Pc>, toks: &[&str]) -> Result<(), PanicKind> {
+    let i: usize = toks[1].parse().expect("index");
+    let v: u64 = toks[2].parse().expect("value");
+    let p = parse_panic_at(toks[3]);
+    let value = Pc(v);
+    CLONES_LEFT.with(|b| b.set(p));
+    let r = match toks[0] {
+        "insert_row" => catch(|| m.insert_row(i, value)),
+        "insert_column" => catch(|| m.insert_column(i, value)),
+        _ => panic!("unknown operation {}", toks[0]),
+    };
+    CLONES_LEFT.with(|b| b.set(None));
+    r
+}
+
 pub struct Runner {
     t: Option<AnyT>,
     m: Option<Matrix<u64>>,
+    pm: Option<Matrix<Pc>>,
 }
 
 impl Runner {
     pub fn new() -> Runner {
-        Runner { t: None, m: None }
+        Runner { t: None, m: None, pm: None }
     }
 
     fn state(&mut self, flavour: &str) -> String {
@@ -672,6 +732,7 @@ impl Runner {
         if toks.first() == Some(&"@") {
             self.t = None;
             self.m = None;
+            self.pm = None;
             toks = &toks[1..];
         }
         let read = opt_arg("read", toks).unwrap_or("copy");
@@ -690,6 +751,26 @@ impl Runner {
                     }
                     Err(k) => format!("panic ## kind={}", k.as_str()),
                 };
+            }
+            "pnew" => {
+                let (r, c) = toks[1].split_once('x').expect("RxC");
+                let (r, c): (usize, usize) = (r.parse().unwrap(), c.parse().unwrap());
+                return match catch(|| Matrix::from_flat_row_major((r, c), (1..=(r * c) as u64).map(Pc).collect())) {
+                    Ok(m) => {
+                        let s = format!("ok {}", show_pc_state(&m));
+                        self.pm = Some(m);
+                        s
+                    }
+                    Err(k) => format!("panic ## kind={}", k.as_str()),
+                };
+            }
+            "p" => {
+                let m = match &mut self.pm {
+                    None => return "no-matrix".into(),
+                    Some(m) => m,
+                };
+                let r = pc_op(m, &toks[1..]);
+                return format!("{} {}{}", out_str(&r), show_pc_state(m), kind_str(&r));
             }
             "m" => {
                 let m = match &mut self.m {
@@ -1306,6 +1387,27 @@ pub fn gen(g: &mut Gen) {
                         r = keep;
                     }
                 }
+            }
+        }
+    }
+    // H. insert_row / insert_column with an element type whose Clone panics on its p-th call
+    // (p = n - 1, where the number of clone calls depends on how the clones are made, is left out)
+    for (r0, c0) in [(1usize, 1usize), (1, 3), (2, 2), (3, 2), (2, 4), (3, 3)] {
+        for which in ["insert_row", "insert_column"] {
+            let n = if which == "insert_row" { c0 } else { r0 };
+            let max = if which == "insert_row" { r0 } else { c0 };
+            for p in 0..=n + 1 {
+                if p + 1 == n {
+                    continue;
+                }
+                g.count(&format!("case.clone-panic.{}", which));
+                g.op(format!("@ pnew {}x{}", r0, c0));
+                let at = g.rng.below(max + 1);
+                g.op(format!("p {} {} 500 {}", which, at, p));
+                // the survivor is used again: a second insertion that completes, then one beyond
+                let at2 = g.rng.below(max + 1);
+                g.op(format!("p {} {} 600 -", which, at2));
+                g.op(format!("p {} {} 700 -", which, max + 5));
             }
         }
     }
